@@ -7,7 +7,8 @@ Property theorems only (model: `Model/Registry.lean` + `Model/Activation.lean`; 
 `Proofs/Activation.lean`).  All statements hold for **every** world `w` (any registries, any program-held
 references, any sets), **every** callback script family `script : Aid → List Action` (on its turn an agent
 may remove itself, remove any other agent — earlier, later, held or not —, create agents in any model, make
-the program drop references, in any combination and number) and every argument.
+the program drop references, add agents to / discard agents from program-made sets including the activated one, in
+any combination and number), every family `raises : Aid → Bool` of callbacks that end by raising, and every argument.
 
 * `walk script arg w refs` is the loop `for ref in refs: if (agent := ref()) is not None: method(agent, arg)`;
   `doSet` is `walk` over the snapshot `members w t` (`list(keyrefs())`), `shuffleDo` over the shuffled snapshot.
@@ -145,6 +146,45 @@ theorem C04_groupby_map_like_do (script : Aid → List Action) (arg : Nat) (ret 
       simp
   simpa using this (w, [])
 
+private theorem groupMap_results (script : Aid → List Action) (arg : Nat) (ret : Aid → Nat → Nat) (gs : List (Nat × List Aid))
+    (w : World) (acc : List (Nat × List Nat)) (hg : ∀ g ∈ gs, ∀ a ∈ g.2, a < w.info.length) :
+    ((gs.foldl (fun (acc : World × List (Nat × List Nat)) g =>
+        let (w', rs) := walkMap script arg ret acc.1 (g.2.filter (alive acc.1))
+        (w', acc.2 ++ [(g.1, rs)])) (w, acc)).2.map (·.2)).flatten
+      = (acc.map (·.2)).flatten ++ (visited script arg w (gs.map (·.2)).flatten).map (fun a => ret a arg) := by
+  induction gs generalizing w acc with
+  | nil => simp [visited]
+  | cons g gs ih =>
+    simp only [List.foldl_cons, List.map_cons, List.flatten_cons]
+    have hspec := walkMap_spec script arg ret w (g.2.filter (alive w))
+    have hfa := walk_filter_alive script arg w w (Le.refl w) g.2 (hg g List.mem_cons_self)
+    have hstep : (walkMap script arg ret w (g.2.filter (alive w))) =
+        (walk script arg w g.2, (visited script arg w g.2).map (fun a => ret a arg)) := by
+      apply Prod.ext
+      · rw [hspec.1, hfa.1]
+      · rw [hspec.2, hfa.2]
+    rw [hstep]
+    simp only
+    rw [ih (walk script arg w g.2) (acc ++ [(g.1, (visited script arg w g.2).map (fun a => ret a arg))])
+      (fun g' hg' a ha => Nat.lt_of_lt_of_le (hg g' (List.mem_cons_of_mem _ hg') a ha) (le_walk script arg w g.2).len)]
+    rw [visited_append]
+    simp [List.map_append, List.flatten_append]
+
+/-- `GroupBy.map` returns the results of exactly the agents it invoked, in invocation order: the result lists of the dict
+    (whose keys are the group keys in group order, `C04_groupby_map_like_do`), read one after the other, are the results of
+    the agents invoked by the regrouped walk (review L17: not only the keys). -/
+theorem C04_groupby_map_results_aligned (script : Aid → List Action) (arg : Nat) (ret : Aid → Nat → Nat) (key : Aid → Nat)
+    (w : World) (t : Target) :
+    ((groupMap script arg ret key w t).2.map (·.2)).flatten
+      = (visited script arg w ((groupBy key (members w t)).map (·.2)).flatten).map (fun a => ret a arg) := by
+  unfold groupMap
+  have := groupMap_results script arg ret (groupBy key (members w t)) w [] (by
+    intro g hg a ha
+    apply members_lt w t
+    apply (groupBy_flatten_perm key (members w t)).subset
+    exact List.mem_flatten.mpr ⟨g.2, List.mem_map.mpr ⟨g, hg, rfl⟩, ha⟩)
+  simpa using this
+
 /-- The duplicate-freeness assumed above holds at every reachable state (C02): after **any** history —
     including earlier activations with churn and in-place shuffles — one activation of any set invokes
     nobody twice, and every member that survives the call is invoked exactly once. -/
@@ -155,6 +195,142 @@ theorem C04_exactly_once_all_histories (ops : List Op) (script : Aid → List Ac
       (visited script arg w (members w t)).count a = 1 :=
   ⟨(C04_never_twice_only_members_in_order script arg _ t (C02_sets_nodup_all_histories ops t)).2.1,
    fun a ha hend => C04_survivor_invoked_exactly_once script arg _ t (C02_sets_nodup_all_histories ops t) a ha hend⟩
+
+/-- **Never twice, only members, never the newly created, survivors exactly once — for every visiting order.**  The
+    statements above hold for *any* reference list that is a permutation of the snapshot, walked from any world `w'`
+    in which the same agents are alive (for `shuffle_do`: `w` with the generator advanced): nobody is invoked twice,
+    everybody invoked was a member at call start, nobody created later is invoked, and every member still alive when
+    the walk ends was invoked exactly once.  Instances: `shuffle_do` (the shuffled snapshot) and `GroupBy.do` (the
+    snapshot regrouped by key), whose final states are exactly these walks. -/
+theorem C04_every_visiting_order_never_twice_survivors_once (script : Aid → List Action) (arg : Nat) (w w' : World)
+    (t : Target) (refs : List Aid) (hn : (rawMembers w t).Nodup) (hp : refs.Perm (members w t))
+    (hlen : w'.info.length = w.info.length) :
+    (visited script arg w' refs).Nodup ∧
+    (∀ a ∈ visited script arg w' refs, a ∈ members w t) ∧
+    (∀ a, w.info.length ≤ a → a ∉ visited script arg w' refs) ∧
+    (∀ a ∈ members w t, alive (walk script arg w' refs) a = true → (visited script arg w' refs).count a = 1) := by
+  have hs := visited_sublist script arg w' refs
+  have hnd : refs.Nodup := hp.nodup_iff.mpr (hn.sublist (members_sublist w t))
+  have hlt : ∀ x ∈ refs, x < w'.info.length := fun x hx => by rw [hlen]; exact members_lt w t x (hp.subset hx)
+  refine ⟨hnd.sublist hs, fun a ha => hp.subset (hs.subset ha), fun a hnew ha => ?_, fun a ha hend => ?_⟩
+  · have hlt' : a < w'.info.length := hlt a (hs.subset ha)
+    rw [hlen] at hlt'
+    exact absurd hlt' (Nat.not_lt.mpr hnew)
+  · have hmem := visited_of_alive_end script arg w' refs hlt a (hp.symm.subset ha) hend
+    have h1 := List.nodup_iff_count.mp (hnd.sublist hs) a
+    have h2 := List.count_pos_iff.mpr hmem
+    omega
+
+/-- …instantiated: one `shuffle_do` and one `GroupBy.do` invoke nobody twice, only members of the snapshot, and every
+    member that is alive when the call returns exactly once (`order` = the agents invoked, in order). -/
+theorem C04_shuffle_do_and_groupby_do_exactly_once (script : Aid → List Action) (arg : Nat) (key : Aid → Nat) (w : World)
+    (t : Target) (hn : (rawMembers w t).Nodup) :
+    (let g := (Rng.shuffle (members w t) (rngOf w t)).2
+     let order := visited script arg (setRng w (t.model w) g) (Rng.shuffle (members w t) (rngOf w t)).1
+     order.Nodup ∧ (∀ a ∈ order, a ∈ members w t) ∧
+     ∀ a ∈ members w t, alive (shuffleDo script arg w t) a = true → order.count a = 1) ∧
+    (let order := visited script arg w ((groupBy key (members w t)).map (·.2)).flatten
+     order.Nodup ∧ (∀ a ∈ order, a ∈ members w t) ∧
+     ∀ a ∈ members w t, alive (groupDo script arg key w t) a = true → order.count a = 1) := by
+  constructor
+  · have h := C04_every_visiting_order_never_twice_survivors_once script arg w
+      (setRng w (t.model w) (Rng.shuffle (members w t) (rngOf w t)).2) t (Rng.shuffle (members w t) (rngOf w t)).1 hn
+      (Rng.shuffle_perm _ _) (by rw [setRng_info])
+    exact ⟨h.1, h.2.1, h.2.2.2⟩
+  · have h := C04_every_visiting_order_never_twice_survivors_once script arg w w t
+      ((groupBy key (members w t)).map (·.2)).flatten hn (groupBy_flatten_perm key _) rfl
+    rw [(C04_groupby_do_is_regrouped_walk script arg key w t).1]
+    exact ⟨h.1, h.2.1, h.2.2.2⟩
+
+/-- **An activation leaves the set's own order untouched** (program-made sets; for `model.agents` and the by-type sets the
+    order after any history is fixed by C02's `C02_creation_order_unless_reordered`, for which no activation counts as a
+    reordering).  Whatever the callbacks remove, create or drop — as long as they do not themselves edit sets —, after
+    `do`, `shuffle_do`, `map` and `GroupBy.do` every program-made set has exactly the key list it had before the call:
+    `shuffle_do` shuffles a private copy only, and what the set shows afterwards is its old order minus the dead. -/
+theorem C04_activation_leaves_program_made_sets_as_they_are (script : Aid → List Action)
+    (hne : ∀ a, ∀ act ∈ script a, act.isSetEdit = false) (arg : Nat) (ret : Aid → Nat → Nat) (key : Aid → Nat)
+    (w : World) (t : Target) :
+    (doSet script arg w t).sets = w.sets ∧ (shuffleDo script arg w t).sets = w.sets ∧
+    (mapSet script arg ret w t).1.sets = w.sets ∧ (groupDo script arg key w t).sets = w.sets ∧
+    ∀ k, (∀ a ∈ rawMembers w (.set k), a < w.info.length) →
+      members (shuffleDo script arg w t) (.set k) = (members w (.set k)).filter (alive (shuffleDo script arg w t)) := by
+  have hsd : (shuffleDo script arg w t).sets = w.sets := by
+    simp only [shuffleDo]; rw [walk_sets script hne, setRng_sets]
+  refine ⟨walk_sets script hne arg w _, hsd, ?_, ?_, fun k hk => ?_⟩
+  · rw [(C04_map_results_aligned script arg ret w t).1]; exact walk_sets script hne arg w _
+  · rw [(C04_groupby_do_is_regrouped_walk script arg key w t).1]; exact walk_sets script hne arg w _
+  · have hle : Le w (shuffleDo script arg w t) := by
+      simp only [shuffleDo]
+      refine Le.trans ⟨⟨[], by simp [setRng_info]⟩, fun a _ h => by rw [setRng_alive] at h; exact h⟩ (le_walk script arg _ _)
+    have hraw : rawMembers (shuffleDo script arg w t) (.set k) = rawMembers w (.set k) := by
+      simp only [rawMembers, hsd]
+    simp only [members, hraw, List.filter_filter]
+    apply List.filter_congr
+    intro a ha
+    cases h1 : alive (shuffleDo script arg w t) a with
+    | false => simp
+    | true => simp [hle.dead a (hk a ha) h1]
+
+/-! ### callbacks that raise, callbacks that edit the activated set -/
+
+/-- **A callback that raises ends the call at the raiser.**  Whatever the callbacks do and whichever of them raise,
+    the activation is an ordinary walk over a prefix `pre` of the reference list (so every theorem above applies to
+    it): if an exception leaves the call, `pre` ends with the raiser `a`, which was alive at its turn and is the
+    last agent invoked; everybody invoked before it did not raise; nobody behind it is invoked (the log holds exactly
+    the invocations of `pre`).  If no exception leaves the call, the whole list was walked and nobody invoked raises. -/
+theorem C04_exception_ends_the_call_at_the_raiser (script : Aid → List Action) (raises : Aid → Bool) (arg : Nat)
+    (w : World) (refs : List Aid) :
+    ∃ pre post, refs = pre ++ post ∧
+      (walkX script raises arg w refs).1 = walk script arg w pre ∧
+      (walkX script raises arg w refs).1.log = w.log ++ (visited script arg w pre).map (fun a => (a, arg)) ∧
+      ((walkX script raises arg w refs).2 = true →
+        ∃ pre' a, pre = pre' ++ [a] ∧ alive (walk script arg w pre') a = true ∧ raises a = true ∧
+          visited script arg w pre = visited script arg w pre' ++ [a] ∧
+          ∀ b ∈ visited script arg w pre', raises b = false) ∧
+      ((walkX script raises arg w refs).2 = false → post = [] ∧ ∀ b ∈ visited script arg w refs, raises b = false) := by
+  obtain ⟨pre, post, h1, h2, h3, h4⟩ := walkX_spec script raises arg w refs
+  refine ⟨pre, post, h1, h2, by rw [h2]; exact walk_log script arg w pre, ?_, h4⟩
+  intro hx
+  obtain ⟨pre', a, e1, e2, e3, e4⟩ := h3 hx
+  refine ⟨pre', a, e1, e2, e3, ?_, e4⟩
+  rw [e1, visited_append, visited_alive _ e2]
+  rfl
+
+/-- `map`, `GroupBy.do` and `GroupBy.map` under exceptions: `map` changes the state exactly as `do` does and returns
+    no list iff an exception leaves the call, otherwise the results of the invoked agents in order; `GroupBy.do` —
+    whose loop over the groups is left by the first exception — is the raising walk over the members regrouped by
+    key; `GroupBy.map` changes the state as `GroupBy.do` and returns no dict iff an exception leaves the call; and
+    callbacks that never raise give the plain activation. -/
+theorem C04_map_and_groupby_under_exceptions (script : Aid → List Action) (raises : Aid → Bool) (arg : Nat)
+    (ret : Aid → Nat → Nat) (key : Aid → Nat) (w : World) (t : Target) :
+    ((mapSetX script raises arg ret w t).1 = (doSetX script raises arg w t).1 ∧
+     ((mapSetX script raises arg ret w t).2 = none ↔ (doSetX script raises arg w t).2 = true) ∧
+     ∀ rs, (mapSetX script raises arg ret w t).2 = some rs →
+       rs = (visited script arg w (members w t)).map (fun a => ret a arg)) ∧
+    groupDoX script raises arg key w t
+      = walkX script raises arg w ((groupBy key (members w t)).map (·.2)).flatten ∧
+    ((groupMapX script raises arg ret key w t).1 = (groupDoX script raises arg key w t).1 ∧
+     ((groupMapX script raises arg ret key w t).2 = none ↔ (groupDoX script raises arg key w t).2 = true)) ∧
+    (∀ refs, walkX script (fun _ => false) arg w refs = (walk script arg w refs, false)) :=
+  ⟨walkMapX_spec script raises arg ret w (members w t), groupDoX_eq script raises arg key w t,
+   groupsMapX_spec script raises arg ret w _, fun refs => walkX_never script arg w refs⟩
+
+/-- **Callbacks may edit the activated set.**  `add` / `discard` calls a callback makes on program-made sets — the
+    very set being activated included — are invisible to the walk: the same agents are invoked, in the same order,
+    as by the same callbacks without those calls, and the two final worlds differ in nothing but the program-made
+    sets (registries, references, log identical).  In particular, when the callbacks do nothing else, every member
+    present at call start is invoked exactly once in set order — also one that an earlier callback discarded from
+    the set — and nobody that was added. -/
+theorem C04_set_edits_invisible_to_the_walk (script : Aid → List Action) (arg : Nat) (w : World) (refs : List Aid) :
+    visited script arg w refs = visited (stripEdits script) arg w refs ∧
+    (∃ s', walk script arg w refs = withSets (walk (stripEdits script) arg w refs) s') ∧
+    ((∀ a, stripEdits script a = []) → ∀ t, visited script arg w (members w t) = members w t) := by
+  have h := walk_withSets script arg refs w w.sets
+  rw [withSets_self] at h
+  refine ⟨h.2, h.1, fun hs t => visited_of_no_churn script arg w _ hs ?_⟩
+  intro a ha
+  simp only [members, List.mem_filter] at ha
+  exact ha.2
 
 /-! ### non-vacuity: churn in one concrete activation -/
 
@@ -175,5 +351,37 @@ example : members (doSet demoScript 7 demoWorld (.all 0)) (.all 0) = [4, 5] ∧
     (doSet demoScript 7 demoWorld (.all 0)).log = [(0, 7), (1, 7), (3, 7), (4, 7)] := by decide
 example : visited demoScript 7 (setRng demoWorld 0 (Rng.shuffle (members demoWorld (.all 0)) (rngOf demoWorld (.all 0))).2)
     (Rng.shuffle (members demoWorld (.all 0)) (rngOf demoWorld (.all 0))).1 = [0, 4, 1, 3] := by decide
+
+/-- agent 1 (held) removes agent 2 and then raises: the call ends there — 0 and 1 were invoked, 3 and 4 never -/
+private def demoRaises : Aid → Bool := fun a => a == 1
+
+example : walkX (fun a => if a = 1 then [.rm 2] else []) demoRaises 7 demoWorld (members demoWorld (.all 0))
+    = (walk (fun a => if a = 1 then [.rm 2] else []) 7 demoWorld [0, 1], true) := by decide
+example : (doSetX (fun a => if a = 1 then [.rm 2] else []) demoRaises 7 demoWorld (.all 0)).1.log = [(0, 7), (1, 7)] ∧
+    members (doSetX (fun a => if a = 1 then [.rm 2] else []) demoRaises 7 demoWorld (.all 0)).1 (.all 0) = [0, 1, 3, 4] := by
+  decide
+example : ((groupMap demoScript 7 (fun a x => a * 100 + x) (GroupKey.ty.eval demoWorld) demoWorld (.all 0)).2) =
+    [(0, [7, 407]), (1, [107]), (2, [307])] := by decide
+example : (mapSetX demoScript demoRaises 7 (fun a x => a * 100 + x) demoWorld (.all 0)).2 = none ∧
+    (mapSetX demoScript (fun _ => false) 7 (fun a x => a * 100 + x) demoWorld (.all 0)).2 = some [7, 107, 307, 407] := by
+  decide
+
+/-- the activated set is program-made set 0 = [0, 1, 2, 3]; agent 0 discards agent 2 from it and adds agent 4, agent 1
+    discards itself: everybody present at call start is still invoked, agent 4 is not; the set ends as [0, 3, 4] -/
+private def demoSetWorld : World := mkSet demoWorld 0 [0, 1, 2, 3]
+private def demoEdits : Aid → List Action
+  | 0 => [.discardFrom 0 2, .addTo 0 4]
+  | 1 => [.discardFrom 0 1]
+  | _ => []
+
+/-- `shuffle_do` under churn (`demoScript` removes agents 2, 1, 3, 0 and creates one): the program-made set keeps its key
+    list; afterwards it shows its old order minus the dead (1 is held, 0 2 3 died) -/
+example : (shuffleDo demoScript 7 demoSetWorld (.set 0)).sets = demoSetWorld.sets ∧
+    members (shuffleDo demoScript 7 demoSetWorld (.set 0)) (.set 0) = [1] ∧
+    (∀ a, a < 6 → ∀ act ∈ demoScript a, act.isSetEdit = false) := by decide
+
+example : visited demoEdits 7 demoSetWorld (members demoSetWorld (.set 0)) = [0, 1, 2, 3] ∧
+    members (doSet demoEdits 7 demoSetWorld (.set 0)) (.set 0) = [0, 3, 4] ∧
+    (∀ a, a < 6 → stripEdits demoEdits a = []) := by decide
 
 end Mesa.Agents
